@@ -11,7 +11,11 @@ import (
 
 func init() {
 	register(&propDef{
-		ID: "C18", Level: "other", Run: runC18,
+		ID: "C18", Level: "other", Run: withShared(runC18, share{"C08", runC08, func(_ *Ctx, o *Obligation) bool {
+			// the heads-up shortcut taken exactly when two can play is what keeps the second blind
+			// search from failing (its -1 would index a slice)
+			return o.Rule == "positions-from-search" && strings.HasSuffix(o.Key, "#store-sb")
+		}}),
 		Explanation: "Lock typestate of the seat manager: every exported method whose transitive access set writes Seat.{Player,IsActive,IsReserved} or the seat map acquires mu.Lock() before anything else and releases by defer, readers acquire RLock or Lock, unexported methods touching that state are called only from holders, a holder never calls an exported locking method of the same object (self-deadlock), and nothing outside the package stores the three fields. Join's effects come after the range test; join stores a player only under Player == nil, refuses otherwise without effect, and marks the seat reserved on every path that seats somebody; leave frees exactly the seat it looked up; 'any seat' draws from seats that are empty and not reserved and reports no-seat exactly when both lists are empty. Every result of a sentinel-returning helper (nil / -1) is tested before it reaches a field access, slice bound or index, or one of two re-verified idioms applies (all callers validated the argument; a dominating playable-count test that implies the search succeeds); dereferences of the nil-able dealer/sb/bb fields are dominated by a nil test or by the checked result of the dealer search. Does NOT decide seated = joins - leaves over histories, nor panics via ApplyStates/SetDealer with foreign input.",
 		Trusted:     commonTrusted,
 		Assumptions: []string{"the seat map holds a seat for every id in [0,max) (established by Reset in the constructor)", "count and search use the same playable predicate (C08/playable-agreement)", "operations on one SeatManager inside one critical section do not interleave (that is what the lock rule establishes)"},
@@ -314,7 +318,12 @@ func runC18JoinGuards(c *Ctx) {
 				}
 			}
 			feasible := false
-			enumGridR(ints, func(name string) (int64, int64) { return 0, 2 }, bools, nil, func(a Asg) bool {
+			enumGridR(ints, func(name string) (int64, int64) {
+				if strings.HasPrefix(name, "len(") {
+					return 0, 2
+				}
+				return -2, 3
+			}, bools, nil, func(a Asg) bool {
 				holds, ok := evalPath(ps, a)
 				if !ok || !holds {
 					return true
@@ -334,7 +343,10 @@ func runC18JoinGuards(c *Ctx) {
 				}
 				return true
 			})
-			_ = feasible
+			if !feasible && noSeat {
+				// not decided on the grid: say so rather than pass
+				c.Notes = append(c.Notes, "join-guards: a no-seat path was not feasible on the grid: ["+ps.CondString()+"]")
+			}
 		}
 		c.check(len(bad) == 0, "join-guards", fnKey(fn)+"#no-seat", p.FnPos(fn), "no-available-seat is reported only when both lists are empty", "no-seat error reported wrongly", uniq(bad, 3)...)
 	}
@@ -538,9 +550,9 @@ func runSentinels(c *Ctx, rule string) {
 	}
 	nSites := 0
 	type agg struct {
-		pos  string
-		ok   []string
-		bad  []string
+		pos string
+		ok  []string
+		bad []string
 	}
 	aggs := map[string]*agg{}
 	var aggOrder []string
